@@ -15,6 +15,7 @@ import MpVerif.C20.ModelExporter
   check              -> `ok` | `fail <reasons>`
   EX <sub> …         exporter transition system (ModelExporter): `reset`, `types <hexty>*`, `grp <hexty> n`, `name <hexty> i <hexname>`,
                      `addnodes <hexnode>*`, events `a <hexnode> n` (ValueNode::Add), `v b ty li ui`, `sv i ty li ui`, `s <hexty>`, `b <hexty> i`, `u <hexty> i`,
+                     `no` / `nc <0|1>` / `nd` (NL objective / constraint / common-expression record), `ao sense lin q1 q2`, `so i sense lin q1 q2` (flat objective added / rewritten),
                      `l <hexlty> entry <src> <dst>` (endpoints `hexnode:beg:last` joined by `,`, or `-`), `f`;
                      `dump` -> `rej=<n> fin=<0|1> | <non-link records> | <delivered> | links=<n>`
   EB <hex>           byte-level `EscapeJSON` model: hex of `escapeB` of the given bytes
@@ -113,11 +114,17 @@ def parseRefs (s : String) : Option (List NodeRef) :=
 
 def b01 (b : Bool) : String := if b then "1" else "0"
 
+def csvNat (l : List Nat) : String := if l.isEmpty then "-" else ",".intercalate (l.map toString)
+
 def recCanon : Rec → Option String
   | .var i b info => some s!"V {i} {b01 b} {info.ty} {b01 info.lbInf} {b01 info.ubInf}"
   | .conNew ty i => some s!"N {hexOfStr ty} {i}"
   | .conStatus ty i nm u b f => some s!"S {hexOfStr ty} {i} {hexOfStr nm} {b01 u} {b01 b} {b01 f}"
   | .conGroup ty g => some s!"G {hexOfStr ty} {g}"
+  | .nlObj i => some s!"NO {i}"
+  | .nlCon i l => some s!"NC {i} {b01 l}"
+  | .nlDefVar i => some s!"ND {i}"
+  | .obj i o => some s!"O {i} {o.sense} {csvNat o.lin} {csvNat o.q1} {csvNat o.q2}"
   | _ => none
 
 structure DState where
@@ -206,6 +213,17 @@ partial def loop (h : IO.FS.Stream) (out : IO.FS.Stream) (st : DState) : IO Unit
       match unhexStr lty, e.toNat?, parseRefs src, parseRefs dst with
       | some (some lty), some e, some s1, some d1 => ev (.link lty e s1 d1)
       | _, _, _, _ => out.putStrLn "bad-op"; loop h out st
+    | ["no"] => ev .nlObj
+    | ["nc", l] => ev (.nlCon (l != "0"))
+    | ["nd"] => ev .nlDefVar
+    | ["ao", sn, l, q1, q2] =>
+      match sn.toNat?, natCsv l, natCsv q1, natCsv q2 with
+      | some sn, some l, some q1, some q2 => ev (.addObj ⟨sn, l, q1, q2⟩)
+      | _, _, _, _ => out.putStrLn "bad-op"; loop h out st
+    | ["so", i, sn, l, q1, q2] =>
+      match i.toNat?, sn.toNat?, natCsv l, natCsv q1, natCsv q2 with
+      | some i, some sn, some l, some q1, some q2 => ev (.setObj i ⟨sn, l, q1, q2⟩)
+      | _, _, _, _, _ => out.putStrLn "bad-op"; loop h out st
     | ["f"] => ev .finish
     | ["dump"] =>
       let s := xevs st.xc.toCfg {} st.xevents
